@@ -42,9 +42,17 @@ struct Case {
 fn form_text(f: &Value, k: usize) -> String {
     if f[0] == "include" {
         format!("(include {})", f[1].as_str().unwrap())
+    } else if f[0] == "nested" {
+        // a (mod ...) used as an expression, here inside a function nobody calls: its files are read all the same
+        format!("(defun nest{k} (Y) (a {} (list Y)))", nested_mod(&f[1], k))
     } else {
-        format!("(embed-file EMB{}_{} {} {})", k, f[2].as_str().unwrap().replace('.', "_"), f[1].as_str().unwrap(), f[2].as_str().unwrap())
+        format!("(embed-file EMB{}_{} {} {})", k, f[2].as_str().unwrap().replace(['.', '/'], "_"), f[1].as_str().unwrap(), f[2].as_str().unwrap())
     }
+}
+
+fn nested_mod(content: &Value, k: usize) -> String {
+    let inner: Vec<String> = content.as_array().unwrap().iter().enumerate().map(|(j, g)| form_text(g, k * 100 + j)).collect();
+    format!("(mod (Z) {} Z)", inner.join(" "))
 }
 
 fn materialise(base: &Path, c: &Case) -> (PathBuf, Vec<String>) {
@@ -63,9 +71,26 @@ fn materialise(base: &Path, c: &Case) -> (PathBuf, Vec<String>) {
         }
         std::fs::write(dir.join(n), text).unwrap();
     }
-    let mains: Vec<String> = c.main.as_array().unwrap().iter().enumerate().map(|(k, f)| form_text(f, k)).collect();
+    // a nested (mod ...) of the main program sits, by turns, in a function nobody calls, in a function the main
+    // expression calls, or in the main expression itself
+    let mut mains: Vec<String> = vec![];
+    let mut extra = String::new();
+    for (k, f) in c.main.as_array().unwrap().iter().enumerate() {
+        if f[0] == "nested" {
+            match if c.sigil.is_empty() { 1 + (c.id + k) % 2 } else { (c.id + k) % 3 } {
+                0 => mains.push(form_text(f, k)),
+                1 => {
+                    mains.push(form_text(f, k));
+                    extra.push_str(&format!(" (nest{k} X)"));
+                }
+                _ => extra.push_str(&format!(" (a {} (list X))", nested_mod(&f[1], k))),
+            }
+        } else {
+            mains.push(form_text(f, k));
+        }
+    }
     let sig = if c.sigil.is_empty() { String::new() } else { format!("(include {})", c.sigil) };
-    let main_text = format!("(mod (X) {} {} (+ X 1))", sig, mains.join(" "));
+    let main_text = format!("(mod (X) {} {} (+ X 1{}))", sig, mains.join(" "), extra);
     let main_path = root.join("main.clsp");
     std::fs::write(&main_path, main_text).unwrap();
     for d in &c.path {
@@ -130,13 +155,32 @@ pub fn drive(args: &HashMap<String, String>) {
     let mut cases: Vec<Case> = vec![];
     if let Some(inp) = args.get("in") {
         let vs = read_tlc_vectors(inp, "V");
-        // prefer configurations in which something is embedded or shadowed; spread over the file
-        let step = (vs.len() / n_model.max(1)).max(1);
-        for (i, v) in vs.iter().enumerate().filter(|(i, v)| i % step == 0 || v["noembed_differs"] == true).take(n_model) {
+        // configurations in which something is embedded or sits in a nested (mod ..) first, the rest spread evenly over
+        // the file (TLC writes small file systems first); classic, cl21 and cl23 by turns
+        let flagged: Vec<usize> = (0..vs.len()).filter(|i| vs[*i]["noembed_differs"] == true || vs[*i]["nonested_differs"] == true).collect();
+        let mut chosen: Vec<usize> = vec![];
+        let want_flagged = (n_model * 2 / 3).min(flagged.len());
+        for k in 0..want_flagged {
+            chosen.push(flagged[k * flagged.len() / want_flagged.max(1)]);
+        }
+        let rest = n_model.saturating_sub(chosen.len()).min(vs.len());
+        for k in 0..rest {
+            chosen.push(k * vs.len() / rest.max(1));
+        }
+        chosen.sort();
+        chosen.dedup();
+        let model_sigils = ["*standard-cl-21*", "", "*standard-cl-23*"];
+        for (n, i) in chosen.into_iter().enumerate() {
+            let v = &vs[i];
+            let sigil = model_sigils[n % 3];
             let files = v["files"].as_array().unwrap().iter().map(|f| (f[0].as_str().unwrap().to_string(), f[1].as_str().unwrap().to_string(), f[2].clone())).collect();
             let path: Vec<String> = v["path"].as_array().unwrap().iter().map(|d| d.as_str().unwrap().to_string()).collect();
-            let reads: BTreeSet<String> = v["reads"].as_array().unwrap().iter().map(|r| format!("{}/{}", r[0].as_str().unwrap(), r[1].as_str().unwrap())).collect();
-            cases.push(Case { id: cases.len(), files, path, main: v["main"].clone(), sigil: sigils[i % 2].to_string(), model_reads: Some(reads), model_err: v["err"].as_bool() });
+            // the classic compiler never looks at a function nobody calls
+            let field = if sigil.is_empty() { "reads_lazy" } else { "reads" };
+            let reads: BTreeSet<String> = v[field].as_array().unwrap().iter().map(|r| format!("{}/{}", r[0].as_str().unwrap(), r[1].as_str().unwrap())).collect();
+            // cl21 rejects include / embed-file forms inside an included file
+            let err = v[if sigil.is_empty() { "err_lazy" } else { "err" }].as_bool().unwrap_or(false) || (sigil == "*standard-cl-21*" && v["form_in_file"] == true);
+            cases.push(Case { id: cases.len(), files, path, main: v["main"].clone(), sigil: sigil.to_string(), model_reads: Some(reads), model_err: Some(err) });
         }
     }
     // random larger graphs: depth 0..4, includes only reachable through other includes, embeds of each kind,
@@ -159,6 +203,7 @@ pub fn drive(args: &HashMap<String, String>) {
                             let kind = if rng.random_bool(0.5) { "bin" } else { "sexp" };
                             forms.push(json!(["embed", kind, later]))
                         }
+                        2 if rng.random_bool(0.3) => forms.push(json!(["nested", [["include", later]]])),
                         _ => {}
                     }
                 }
@@ -190,6 +235,15 @@ pub fn drive(args: &HashMap<String, String>) {
         }
         if names.len() > 2 && rng.random_bool(0.5) {
             main.push(json!(["embed", "bin", names[names.len() - 1]]));
+        }
+        // files only a (mod ...) expression asks for
+        if i % 4 == 1 {
+            files.push((dirs[rng.random_range(0..3)].to_string(), "only_nested.clinc".to_string(), json!([])));
+            let mut inner = vec![json!(["include", "only_nested.clinc"])];
+            if rng.random_bool(0.5) {
+                inner.push(json!(["embed", "hex", "data.hex"]));
+            }
+            main.push(json!(["nested", inner]));
         }
         if rng.random_bool(0.5) {
             main.push(json!(["embed", "hex", "data.hex"]));
@@ -289,6 +343,9 @@ pub fn drive(args: &HashMap<String, String>) {
             if c.model_err == Some(false) && r["compiled"] != true {
                 rep.drift(json!({"case": desc, "model": "compiles", "observed": "does not compile"}));
             }
+            if c.model_err == Some(true) && r["compiled"] == true {
+                rep.drift(json!({"case": desc, "model": "does not compile", "observed": "compiles"}));
+            }
         }
         if rep.samples.len() < 4 && reads.len() > 1 {
             rep.sample(json!({"case": desc, "observed": r}));
@@ -302,16 +359,19 @@ pub fn drive(args: &HashMap<String, String>) {
 fn is_embed_only(c: &Case, rel: &str) -> bool {
     let name = rel.rsplit('/').next().unwrap_or(rel);
     let mut included = false;
-    let mut check = |forms: &Value| {
+    fn check(forms: &Value, name: &str, included: &mut bool) {
         for f in forms.as_array().unwrap() {
             if f[0] == "include" && f[1].as_str() == Some(name) {
-                included = true;
+                *included = true;
+            }
+            if f[0] == "nested" {
+                check(&f[1], name, included);
             }
         }
-    };
-    check(&c.main);
+    }
+    check(&c.main, name, &mut included);
     for (_, _, k) in &c.files {
-        check(k);
+        check(k, name, &mut included);
     }
     !included
 }
